@@ -1247,7 +1247,14 @@ class Extractor:
             # D4 (fields): `pub(crate)` fields become `pub` so that open spec functions of the unit may read them
             n_f = len(re.findall(r'pub\s*\(\s*(?:crate|super)\s*\)', text[4:]))
             text = text[:4] + re.sub(r'pub\s*\(\s*(?:crate|super)\s*\)', 'pub', text[4:])
-            res.drops.append('D4 %d restricted field visibilities of %s %s -> pub' % (n_f, kind, d['name']))
+            if kind == 'struct':
+                lines2 = text.split('\n')
+                for k2 in range(1, len(lines2)):
+                    if re.match(r'^\s*[a-z_][A-Za-z0-9_]*\s*:', lines2[k2]):
+                        lines2[k2] = re.sub(r'^(\s*)', r'\1pub ', lines2[k2], count=1)
+                        n_f += 1
+                text = '\n'.join(lines2)
+            res.drops.append('D4 %d restricted / private field visibilities of %s %s -> pub' % (n_f, kind, d['name']))
         mvis = re.match(r'pub\s*\(\s*(crate|super)\s*\)', text)
         if mvis:
             # D4: restricted visibility of an extracted type becomes `pub` (one flat module; Verus wants datatypes with
